@@ -418,9 +418,10 @@ func (f *file) ReadDir(n int) ([]hackpadfs.DirEntry, error) {
 	if start > total {
 		start = total
 	}
-	end := start + int64(n)
-	if n <= 0 || end > total {
-		end = total
+	end := total
+	if n > 0 && int64(n) < total-start {
+		// compare with the remainder: start+n can overflow for a huge n
+		end = start + int64(n)
 	}
 	offsetAdd := end - start
 
